@@ -373,6 +373,8 @@ pub mod objs_r0 {
     #[savefile_abi_exportable(version = 0)]
     pub trait OCallback {
         fn hit(&self, x: u32) -> u32;
+        fn second(&self, a: u16, b: String) -> u8;
+        fn third(&self) -> u64;
     }
     #[savefile_abi_exportable(version = 0)]
     pub trait OLedger {
@@ -391,6 +393,8 @@ pub mod objs_r1 {
     #[savefile_abi_exportable(version = 0)]
     pub trait OCallback {
         fn hit(&self, x: u32) -> u32;
+        fn second(&self, a: u16, b: String) -> u8;
+        fn third(&self) -> u64;
     }
     #[savefile_abi_exportable(version = 1)]
     pub trait OLedger {
@@ -410,6 +414,8 @@ pub mod objs_b_closure_arg {
     #[savefile_abi_exportable(version = 0)]
     pub trait OCallback {
         fn hit(&self, x: u32) -> u32;
+        fn second(&self, a: u16, b: String) -> u8;
+        fn third(&self) -> u64;
     }
     #[savefile_abi_exportable(version = 0)]
     pub trait OLedger {
@@ -428,6 +434,8 @@ pub mod objs_b_closure_ret {
     #[savefile_abi_exportable(version = 0)]
     pub trait OCallback {
         fn hit(&self, x: u32) -> u32;
+        fn second(&self, a: u16, b: String) -> u8;
+        fn third(&self) -> u64;
     }
     #[savefile_abi_exportable(version = 0)]
     pub trait OLedger {
@@ -446,6 +454,68 @@ pub mod objs_b_callback_ret {
     #[savefile_abi_exportable(version = 0)]
     pub trait OCallback {
         fn hit(&self, x: u32) -> u16;
+        fn second(&self, a: u16, b: String) -> u8;
+        fn third(&self) -> u64;
+    }
+    #[savefile_abi_exportable(version = 0)]
+    pub trait OLedger {
+        fn with_fn(&self, f: &dyn Fn(u32) -> u32) -> u32;
+        fn with_boxed(&self, f: Box<dyn Fn(u32, String) -> u32 + Send + Sync>) -> u32;
+        fn with_obj(&self, o: Box<dyn OCallback>) -> u32;
+        fn make(&self) -> Box<dyn OCallback>;
+        fn later(&self, x: u32) -> Pin<Box<dyn Future<Output = u32>>>;
+    }
+}
+pub mod objs_b_callback_second_arg {
+    // BREAKING sibling of r0: argument type of the SECOND method of the callback trait changes
+    use savefile_derive::savefile_abi_exportable;
+    use std::future::Future;
+    use std::pin::Pin;
+    #[savefile_abi_exportable(version = 0)]
+    pub trait OCallback {
+        fn hit(&self, x: u32) -> u32;
+        fn second(&self, a: u32, b: String) -> u8;
+        fn third(&self) -> u64;
+    }
+    #[savefile_abi_exportable(version = 0)]
+    pub trait OLedger {
+        fn with_fn(&self, f: &dyn Fn(u32) -> u32) -> u32;
+        fn with_boxed(&self, f: Box<dyn Fn(u32, String) -> u32 + Send + Sync>) -> u32;
+        fn with_obj(&self, o: Box<dyn OCallback>) -> u32;
+        fn make(&self) -> Box<dyn OCallback>;
+        fn later(&self, x: u32) -> Pin<Box<dyn Future<Output = u32>>>;
+    }
+}
+pub mod objs_b_callback_third_ret {
+    // BREAKING sibling of r0: return type of the THIRD method of the callback trait changes
+    use savefile_derive::savefile_abi_exportable;
+    use std::future::Future;
+    use std::pin::Pin;
+    #[savefile_abi_exportable(version = 0)]
+    pub trait OCallback {
+        fn hit(&self, x: u32) -> u32;
+        fn second(&self, a: u16, b: String) -> u8;
+        fn third(&self) -> u32;
+    }
+    #[savefile_abi_exportable(version = 0)]
+    pub trait OLedger {
+        fn with_fn(&self, f: &dyn Fn(u32) -> u32) -> u32;
+        fn with_boxed(&self, f: Box<dyn Fn(u32, String) -> u32 + Send + Sync>) -> u32;
+        fn with_obj(&self, o: Box<dyn OCallback>) -> u32;
+        fn make(&self) -> Box<dyn OCallback>;
+        fn later(&self, x: u32) -> Pin<Box<dyn Future<Output = u32>>>;
+    }
+}
+pub mod objs_b_callback_second_argcount {
+    // BREAKING sibling of r0: argument count of the SECOND method of the callback trait changes
+    use savefile_derive::savefile_abi_exportable;
+    use std::future::Future;
+    use std::pin::Pin;
+    #[savefile_abi_exportable(version = 0)]
+    pub trait OCallback {
+        fn hit(&self, x: u32) -> u32;
+        fn second(&self, a: u16) -> u8;
+        fn third(&self) -> u64;
     }
     #[savefile_abi_exportable(version = 0)]
     pub trait OLedger {
@@ -464,6 +534,8 @@ pub mod objs_b_future_output {
     #[savefile_abi_exportable(version = 0)]
     pub trait OCallback {
         fn hit(&self, x: u32) -> u32;
+        fn second(&self, a: u16, b: String) -> u8;
+        fn third(&self) -> u64;
     }
     #[savefile_abi_exportable(version = 0)]
     pub trait OLedger {
@@ -482,6 +554,8 @@ pub mod objs_b_callback_method {
     #[savefile_abi_exportable(version = 0)]
     pub trait OCallback {
         fn hit(&self, x: u32, y: u32) -> u32;
+        fn second(&self, a: u16, b: String) -> u8;
+        fn third(&self) -> u64;
     }
     #[savefile_abi_exportable(version = 0)]
     pub trait OLedger {
@@ -496,8 +570,8 @@ fn objs_view_r0(_v: u32) -> Vec<(&'static str, &'static str)> {
     vec![
         ("with_fn", "(&Fn(u32)->u32)->u32"),
         ("with_boxed", "(Box<Fn(u32,String)->u32>)->u32"),
-        ("with_obj", "(Box<OCallback{hit(u32)->u32}>)->u32"),
-        ("make", "()->Box<OCallback{hit(u32)->u32}>"),
+        ("with_obj", "(Box<OCallback{hit(u32)->u32,second(u16,String)->u8,third()->u64}>)->u32"),
+        ("make", "()->Box<OCallback{hit(u32)->u32,second(u16,String)->u8,third()->u64}>"),
         ("later", "(u32)->Future<u32>"),
     ]
 }
@@ -521,6 +595,25 @@ fn objs_view_b_callback_ret(v: u32) -> Vec<(&'static str, &'static str)> {
             _ => m,
         })
         .collect()
+}
+fn objs_view_cb(v: u32, sig: &'static str) -> Vec<(&'static str, &'static str)> {
+    objs_view_r0(v)
+        .into_iter()
+        .map(|m| match m.0 {
+            "with_obj" => ("with_obj", sig),
+            "make" => ("make", sig),
+            _ => m,
+        })
+        .collect()
+}
+fn objs_view_b_cb_second_arg(v: u32) -> Vec<(&'static str, &'static str)> {
+    objs_view_cb(v, "OCallback{hit(u32)->u32,second(u32,String)->u8,third()->u64}")
+}
+fn objs_view_b_cb_third_ret(v: u32) -> Vec<(&'static str, &'static str)> {
+    objs_view_cb(v, "OCallback{hit(u32)->u32,second(u16,String)->u8,third()->u32}")
+}
+fn objs_view_b_cb_second_argcount(v: u32) -> Vec<(&'static str, &'static str)> {
+    objs_view_cb(v, "OCallback{hit(u32)->u32,second(u16)->u8,third()->u64}")
 }
 fn objs_view_b_future(v: u32) -> Vec<(&'static str, &'static str)> {
     objs_view_r0(v).into_iter().map(|m| if m.0 == "later" { ("later", "(u32)->Future<u64>") } else { m }).collect()
@@ -641,6 +734,72 @@ fn argv2_view_b(v: u32) -> Vec<(&'static str, &'static str)> {
     argv2_view(v).into_iter().map(|m| if m.0 == "enum_arg" { ("enum_arg", if v == 0 { "(Enum{V1,V2})->u32" } else { "(Enum{V1,V2,V3})->u32" }) } else { m }).collect()
 }
 
+// ------------------------------------------------------------------------------------------------
+// chain "bounds": trait BLedger with auto-trait bounds (the recorded name carries +Sync+Send)
+// ------------------------------------------------------------------------------------------------
+pub mod bounds_r0 {
+    use savefile_derive::savefile_abi_exportable;
+    #[savefile_abi_exportable(version = 0)]
+    pub trait BLedger: Send + Sync {
+        fn get(&self, x: u32) -> u32;
+        fn put(&self, s: String) -> u8;
+    }
+}
+pub mod bounds_r1 {
+    // compatible: a new method
+    use savefile_derive::savefile_abi_exportable;
+    #[savefile_abi_exportable(version = 1)]
+    pub trait BLedger: Send + Sync {
+        fn get(&self, x: u32) -> u32;
+        fn put(&self, s: String) -> u8;
+        fn more(&self) -> u8;
+    }
+}
+pub mod bounds_b_no_sync {
+    // BREAKING (by the library's own rule for interfaces in argument position): the Sync bound is dropped
+    use savefile_derive::savefile_abi_exportable;
+    #[savefile_abi_exportable(version = 0)]
+    pub trait BLedger: Send {
+        fn get(&self, x: u32) -> u32;
+        fn put(&self, s: String) -> u8;
+    }
+}
+pub mod bounds_b_no_send {
+    // BREAKING: the Send bound is dropped
+    use savefile_derive::savefile_abi_exportable;
+    #[savefile_abi_exportable(version = 0)]
+    pub trait BLedger: Sync {
+        fn get(&self, x: u32) -> u32;
+        fn put(&self, s: String) -> u8;
+    }
+}
+fn bounds_view(bounds: &'static str, more: bool) -> Vec<(&'static str, &'static str)> {
+    // the bounds are part of what is recorded: model them as a pseudo-method that must be present and equal
+    let mut v = vec![("get", "(u32)->u32"), ("put", "(String)->u8")];
+    if bounds.contains("Sync") {
+        v.push(("<bound Sync>", "required"));
+    }
+    if bounds.contains("Send") {
+        v.push(("<bound Send>", "required"));
+    }
+    if more {
+        v.push(("more", "()->u8"));
+    }
+    v
+}
+fn bounds_view_r0(_v: u32) -> Vec<(&'static str, &'static str)> {
+    bounds_view("Send+Sync", false)
+}
+fn bounds_view_r1(_v: u32) -> Vec<(&'static str, &'static str)> {
+    bounds_view("Send+Sync", true)
+}
+fn bounds_view_no_sync(_v: u32) -> Vec<(&'static str, &'static str)> {
+    bounds_view("Send", false)
+}
+fn bounds_view_no_send(_v: u32) -> Vec<(&'static str, &'static str)> {
+    bounds_view("Sync", false)
+}
+
 macro_rules! rev {
     ($chain:expr, $name:expr, $latest:expr, $view:expr, $t:ty, $edit:expr) => {
         Rev { chain: $chain, name: $name, latest: $latest, view: $view, verify: |p| verify_compatiblity::<$t>(p), edit: $edit }
@@ -665,11 +824,18 @@ pub fn revisions() -> Vec<Rev> {
         rev!("argv2", "argv2", 1, argv2_view, dyn argv2::ArgInterfaceV2, "the interface exactly as recorded by the checked-in ledger"),
         rev!("argv2", "argv2_next", 2, argv2_view_next, dyn argv2_next::ArgInterfaceV2, "compatible: version 2 adds a field and a method"),
         rev!("argv2", "argv2_b_enum_arg", 1, argv2_view_b, dyn argv2_b_enum_arg::ArgInterfaceV2, "BREAKING: `enum_arg` returns u32"),
+        rev!("bounds", "bounds_r0", 0, bounds_view_r0, dyn bounds_r0::BLedger, "initial revision, declared `: Send + Sync`"),
+        rev!("bounds", "bounds_r1", 1, bounds_view_r1, dyn bounds_r1::BLedger, "compatible: new method"),
+        rev!("bounds", "bounds_b_no_sync", 0, bounds_view_no_sync, dyn bounds_b_no_sync::BLedger, "BREAKING: Sync bound dropped"),
+        rev!("bounds", "bounds_b_no_send", 0, bounds_view_no_send, dyn bounds_b_no_send::BLedger, "BREAKING: Send bound dropped"),
         rev!("objs", "objs_r0", 0, objs_view_r0, dyn objs_r0::OLedger, "initial revision (closures, boxed traits, boxed futures)"),
         rev!("objs", "objs_r1", 1, objs_view_r1, dyn objs_r1::OLedger, "compatible: new method taking &mut dyn FnMut"),
         rev!("objs", "objs_b_closure_arg", 0, objs_view_b_closure, dyn objs_b_closure_arg::OLedger, "BREAKING: argument type of a closure argument changed"),
         rev!("objs", "objs_b_closure_ret", 0, objs_view_b_closure_ret, dyn objs_b_closure_ret::OLedger, "BREAKING: result type of a closure argument changed"),
         rev!("objs", "objs_b_callback_ret", 0, objs_view_b_callback_ret, dyn objs_b_callback_ret::OLedger, "BREAKING: return type of a method of the boxed callback trait changed"),
+        rev!("objs", "objs_b_callback_second_arg", 0, objs_view_b_cb_second_arg, dyn objs_b_callback_second_arg::OLedger, "BREAKING: argument type of the second method of the boxed callback trait changed"),
+        rev!("objs", "objs_b_callback_third_ret", 0, objs_view_b_cb_third_ret, dyn objs_b_callback_third_ret::OLedger, "BREAKING: return type of the third method of the boxed callback trait changed"),
+        rev!("objs", "objs_b_callback_second_argcount", 0, objs_view_b_cb_second_argcount, dyn objs_b_callback_second_argcount::OLedger, "BREAKING: argument count of the second method of the boxed callback trait changed"),
         rev!("objs", "objs_b_future_output", 0, objs_view_b_future, dyn objs_b_future_output::OLedger, "BREAKING: output type of the returned future changed"),
         rev!("objs", "objs_b_callback_method", 0, objs_view_b_callback, dyn objs_b_callback_method::OLedger, "BREAKING: method of the boxed callback trait passed/returned changed"),
     ]
